@@ -64,19 +64,32 @@ func init() {
 				b.Preempt = 3
 			}
 			var rerr error
-			var nTime, nStr, nFld map[int]int
+			var nTime, nStr, nFld, nGen map[int]int
 			var submitted []int
+			// the calls that overflow the buffer (101, 102: whichever is the last of the filling loop) and one of the late calls go through Debug / Trace
+			lazyIDs := map[int]bool{101: true, 102: true, 501: true}
 			return &zzvrt.Scenario{
 				Before: func() {
 					resetAll()
 					hrecItems, hrecTokens, rerr, submitted = nil, 0, nil, nil
-					nTime, nStr, nFld = map[int]int{}, map[int]int{}, map[int]int{}
+					nTime, nStr, nFld, nGen = map[int]int{}, map[int]int{}, map[int]int{}, map[int]int{}
 				},
 				Opts: zzvrt.RunOpts{Bounds: b},
 				Body: func() {
 					idOf := func(ctx context.Context) int { v, _ := ctx.Value(hookIDKey{}).(int); return v }
 					logOne := func(id int) {
-						log.Warn(context.WithValue(context.Background(), hookIDKey{}, id), c03Tags[0], log.Int("id", id))
+						ctx := context.WithValue(context.Background(), hookIDKey{}, id)
+						if lazyIDs[id] {
+							// a lazy entry point at an enabled level: the generator runs exactly once, whatever the buffer looks like
+							gen := func() []log.Field { nGen[id]++; return []log.Field{log.Int("id", id)} }
+							if id%2 == 0 {
+								log.Debug(ctx, c03Tags[0], gen)
+							} else {
+								log.Trace(ctx, c03Tags[0], gen)
+							}
+							return
+						}
+						log.Warn(ctx, c03Tags[0], log.Int("id", id))
 					}
 					zzvrt.Atomic(func() {
 						log.TimeNow = func(ctx context.Context) time.Time {
@@ -145,7 +158,11 @@ func init() {
 						fmt.Sscanf(ps[3], "ms=%d", &ms)
 						lv = strings.TrimPrefix(ps[4], "lv=")
 						seen[id]++
-						if cs != fmt.Sprintf("cs-%d", id) || cf != id || ms != id || lv != "WARN" {
+						wantLv := "WARN"
+						if lazyIDs[id] {
+							wantLv = map[bool]string{true: "DEBUG", false: "TRACE"}[id%2 == 0]
+						}
+						if cs != fmt.Sprintf("cs-%d", id) || cf != id || ms != id || lv != wantLv {
 							fail("record-not-from-its-call", fmt.Sprintf("record %q: time / context string / context field / level are not those the hooks returned for call %d", it, id))
 						}
 					}
@@ -155,6 +172,9 @@ func init() {
 						}
 						if seen[id] > 1 {
 							fail("record-twice", fmt.Sprintf("call %d has %d records", id, seen[id]))
+						}
+						if lazyIDs[id] && nGen[id] != 1 {
+							fail("lazy-generator-count", fmt.Sprintf("call %d (Debug/Trace at an enabled level): the lazy generator was invoked %d times", id, nGen[id]))
 						}
 					}
 					for _, id := range []int{500, 501} {
